@@ -30,6 +30,7 @@ import (
 	"go.opentelemetry.io/otel/attribute"
 	"go.opentelemetry.io/otel/metric"
 	sdk "go.opentelemetry.io/otel/sdk/metric"
+	"go.opentelemetry.io/otel/sdk/metric/exemplar"
 	"go.opentelemetry.io/otel/sdk/metric/metricdata"
 
 	"verif/harness/vgen"
@@ -1224,6 +1225,217 @@ func runFlushCallerGivesUp(w *vgen.Writer, r *vgen.Rand, desc string, viaProvide
 	w.Add(term, map[string]any{"history": desc, "readers": cfgD, "via_provider": viaProvider, "views": wd.viewsD}, "flush-caller-gives-up", true)
 }
 
+// rendezvous lets two goroutines meet: the first waits for the second, but not longer than a grace period
+// (which simply elapses when the code serialises them).
+type rendezvous struct {
+	mu   sync.Mutex
+	n    int
+	both chan struct{}
+}
+
+func newRendezvous() *rendezvous { return &rendezvous{both: make(chan struct{})} }
+func (rv *rendezvous) arrive() {
+	rv.mu.Lock()
+	rv.n++
+	if rv.n == 2 {
+		close(rv.both)
+	}
+	rv.mu.Unlock()
+	select {
+	case <-rv.both:
+	case <-time.After(250 * time.Millisecond):
+	}
+}
+
+// concurrentCreation (seeded change C02-16): several goroutines obtain the SAME counter at the same time
+// (user code that runs during creation - a View function and an exemplar-reservoir selector - holds the
+// window open) and add to it: every reader must report ONE stream with the total of all measurements.
+func concurrentCreation(w *vgen.Writer, r *vgen.Rand, desc string) {
+	inView, inSel := newRendezvous(), newRendezvous()
+	view := func(i sdk.Instrument) (sdk.Stream, bool) {
+		if i.Name != "reqs" {
+			return sdk.Stream{}, false
+		}
+		inView.arrive()
+		return sdk.Stream{Name: i.Name, Description: i.Description, Unit: i.Unit,
+			ExemplarReservoirProviderSelector: func(a sdk.Aggregation) exemplar.ReservoirProvider {
+				inSel.arrive()
+				return sdk.DefaultExemplarReservoirProviderSelector(a)
+			}}, true
+	}
+	dR := sdk.NewManualReader(sdk.WithTemporalitySelector(allDelta))
+	cR := sdk.NewManualReader()
+	mp := sdk.NewMeterProvider(sdk.WithReader(dR), sdk.WithReader(cR), sdk.WithView(view))
+	ctx := context.Background()
+	defer mp.Shutdown(ctx)
+	float := r.Bool()
+	nG := r.Range(2, 3)
+	vals := make([]int64, nG)
+	total := int64(0)
+	for i := range vals {
+		vals[i] = int64(r.Range(1, 40))
+		total += vals[i]
+	}
+	var wg sync.WaitGroup
+	var errMu sync.Mutex
+	var errs []string
+	for _, v := range vals {
+		wg.Add(1)
+		go func(v int64) {
+			defer wg.Done()
+			meter := mp.Meter("verif/c02/creation")
+			var e error
+			if float {
+				var c metric.Float64Counter
+				if c, e = meter.Float64Counter("reqs"); e == nil {
+					c.Add(ctx, float64(v))
+				}
+			} else {
+				var c metric.Int64Counter
+				if c, e = meter.Int64Counter("reqs"); e == nil {
+					c.Add(ctx, v)
+				}
+			}
+			if e != nil {
+				errMu.Lock()
+				errs = append(errs, e.Error())
+				errMu.Unlock()
+			}
+		}(v)
+	}
+	done := make(chan struct{})
+	go func() { wg.Wait(); close(done) }()
+	select {
+	case <-done:
+	case <-time.After(120 * time.Second):
+		w.Violation("concurrent creation of one counter did not finish within 120 s", desc)
+		return
+	}
+	for _, e := range errs {
+		w.Violation("concurrent creation of one counter failed: "+e, desc)
+	}
+	for name, rd := range map[string]*sdk.ManualReader{"delta": dR, "cumulative": cR} {
+		var rm metricdata.ResourceMetrics
+		if e := rd.Collect(ctx, &rm); e != nil {
+			w.Violation("Collect failed: "+e.Error(), desc)
+		}
+		streams, sum, points := 0, int64(0), 0
+		for _, sm := range rm.ScopeMetrics {
+			for _, m := range sm.Metrics {
+				if strings.EqualFold(m.Name, "reqs") {
+					streams++
+					switch d := m.Data.(type) {
+					case metricdata.Sum[int64]:
+						for _, p := range d.DataPoints {
+							points++
+							sum += p.Value
+						}
+					case metricdata.Sum[float64]:
+						for _, p := range d.DataPoints {
+							points++
+							sum += int64(p.Value)
+						}
+					}
+				}
+			}
+		}
+		if streams != 1 || points != 1 || sum != total {
+			w.Violation(fmt.Sprintf("one counter obtained by %d goroutines at the same time: the %s reader reports %d stream(s), %d point(s), sum %d; recorded %d in one attribute set",
+				nG, name, streams, points, sum, total), desc)
+		}
+	}
+	w.Tally("concurrent creation of one counter")
+}
+
+// strictExporter refuses (and does not deliver) a payload whose context is already done when Export is
+// entered, and remembers when that context was created (deadline - timeout).
+type strictExporter struct {
+	timeout time.Duration
+	mu      sync.Mutex
+	sum     int64
+	refused []time.Time // creation instants of the contexts of refused exports
+	exports int
+}
+
+func (e *strictExporter) Temporality(sdk.InstrumentKind) metricdata.Temporality {
+	return metricdata.DeltaTemporality
+}
+func (e *strictExporter) Aggregation(k sdk.InstrumentKind) sdk.Aggregation {
+	return sdk.DefaultAggregationSelector(k)
+}
+func (e *strictExporter) Export(ctx context.Context, rm *metricdata.ResourceMetrics) error {
+	e.mu.Lock()
+	defer e.mu.Unlock()
+	if err := ctx.Err(); err != nil {
+		created := time.Time{}
+		if dl, ok := ctx.Deadline(); ok {
+			created = dl.Add(-e.timeout)
+		}
+		e.refused = append(e.refused, created)
+		return err
+	}
+	e.exports++
+	for _, sm := range rm.ScopeMetrics {
+		for _, m := range sm.Metrics {
+			if d, ok := m.Data.(metricdata.Sum[int64]); ok {
+				for _, p := range d.DataPoints {
+					e.sum += p.Value
+				}
+			}
+		}
+	}
+	return nil
+}
+func (e *strictExporter) ForceFlush(context.Context) error { return nil }
+func (e *strictExporter) Shutdown(context.Context) error   { return nil }
+
+// oldReaderFlush (seeded change C02-17): a periodic reader that has been running for longer than its
+// export timeout flushes; every collection must get a context of its own, so a backend that refuses a
+// payload whose context is done still receives it.  If a refusal happens although the context was
+// created after ForceFlush was called (the machine stalled for longer than the timeout between the
+// collection and the export), the scenario is dropped as inconclusive.
+func oldReaderFlush(w *vgen.Writer, r *vgen.Rand, desc string) {
+	timeout := time.Duration(r.Range(150, 250)) * time.Millisecond
+	ex := &strictExporter{timeout: timeout}
+	pr := sdk.NewPeriodicReader(ex, sdk.WithInterval(time.Hour), sdk.WithTimeout(timeout))
+	mp := sdk.NewMeterProvider(sdk.WithReader(pr))
+	ctx := context.Background()
+	c, err := mp.Meter("verif/c02/old-reader").Int64Counter("c")
+	if err != nil {
+		w.Violation("setup failed: "+err.Error(), desc)
+		return
+	}
+	total := int64(0)
+	add := func() {
+		for j, m := 0, r.Range(2, 9); j < m; j++ {
+			v := int64(r.Range(1, 30))
+			c.Add(ctx, v)
+			total += v
+		}
+	}
+	add()
+	time.Sleep(timeout + 30*time.Millisecond) // the reader is now older than its timeout
+	tCall := time.Now()
+	_ = pr.ForceFlush(ctx)
+	add()
+	_ = pr.ForceFlush(ctx)
+	add()
+	_ = mp.Shutdown(ctx)
+	ex.mu.Lock()
+	defer ex.mu.Unlock()
+	for _, created := range ex.refused {
+		if !created.Before(tCall) {
+			w.Tally("old periodic reader: inconclusive (machine stalled longer than the export timeout)")
+			return
+		}
+	}
+	w.Tally("old periodic reader flushes")
+	if ex.sum != total {
+		w.Violation(fmt.Sprintf("periodic reader older than its export timeout (%v): %d export(s) refused because their context was created before ForceFlush was called; "+
+			"exported deltas add up to %d, recorded %d", timeout, len(ex.refused), ex.sum, total), desc)
+	}
+}
+
 // periodicExtra, when set, adds options to the periodic readers that build creates (by reader index).
 var periodicExtra func(reader int) []sdk.PeriodicReaderOption
 
@@ -1520,6 +1732,12 @@ func main() {
 	for n := 0; n < 6; n++ {
 		desc := fmt.Sprintf("corpus ForceFlush caller gives up %d", n)
 		guard(desc, func() { runFlushCallerGivesUp(w, r.Fork(), desc, n%2 == 1) })
+	}
+	for n := 0; n < o.Count(1, 6); n++ {
+		desc := fmt.Sprintf("concurrent creation %d", n)
+		guard(desc, func() { concurrentCreation(w, r.Fork(), desc) })
+		desc2 := fmt.Sprintf("old periodic reader %d", n)
+		guard(desc2, func() { oldReaderFlush(w, r.Fork(), desc2) })
 	}
 	nSeq := o.Count(400, 8000)
 	for n := 0; n < nSeq; n++ {
